@@ -1,15 +1,107 @@
-import SSV.Model.SWF
+import SSV.Proofs.SWFRun
 /-
-C04 — property theorems (statements only live here; helper lemmas in SSV/Proofs).
+C04 — Authenticated UDP packets are delivered at most once; fresh ones never refused.
+Property theorems only (helper lemmas: SSV/Proofs/SWF*.lean, SSV/Proofs/UdpSession.lean).
+
+Part 1: the sliding-window filter (ss2022/slidingwindow.go, model SSV/Model/SWF.lean) refines the
+specification "list of delivered ids + newest" (SSV/Model/SWFSpec.lean) for EVERY window size
+with `1 ≤ size` and `size + 63 < 2^63` and EVERY sequence of operations `Add(c)`,
+`IsOk(c);MustAdd(c)`, `IsOk(c)`, `Reset()` with arbitrary ids (in particular all ids `< 2^64`).
+
+Excluded sizes (stated as the decidable hypothesis `SizeOk`): for `size + 63 ≥ 2^63` the code's
+`1 << bits.Len64(size+63)` is `2^63·2 = 0 (mod 2^64)` or `size+63` itself wraps; the model keeps
+those wraps explicit (`SWF.new`), the theorems do not cover them (finding F15, decided under C18;
+corr_c04 runs the real code at a few such sizes and reports the outcome in its notes).
 -/
 namespace SSV.C04
 open SSV.SWF
 
-/-- A counter at least `size` behind the newest accepted one is refused and leaves the filter unchanged. -/
+/-- Gen side condition: the proofs are for the block width the source has now. -/
+theorem gen_swfBlockBits : SSV.Gen.C04.swfBlockBits = 64 := by decide
+
+/-- the window sizes the theorems quantify over -/
+def SizeOk (size : Nat) : Prop := 1 ≤ size ∧ size + 63 < 2 ^ 63
+
+instance (size : Nat) : Decidable (SizeOk size) := by unfold SizeOk; infer_instance
+
+example : SizeOk 1 ∧ SizeOk 256 ∧ SizeOk (2 ^ 63 - 64) ∧ ¬ SizeOk 0 ∧ ¬ SizeOk (2 ^ 63 - 63) := by decide
+
+/-- **swf_refines.** For every size in range and every operation sequence, the verdict sequence of the
+ring-of-words filter equals the verdict sequence of the specification: an id is accepted iff it was
+not delivered before and (nothing was delivered yet, or it is newer than the newest delivered id, or
+it is fewer than `size` behind it). Covers `Add` and `IsOk;MustAdd` (and mixed use, probes, `Reset`). -/
+theorem swf_refines (size : Nat) (h : SizeOk size) (ops : List Op) :
+    verdicts (new size) ops = specVerdicts size [] ops ∧
+    deliveredFrom (new size) [] ops = specDelivered size [] ops :=
+  ⟨(run_new size h.1 h.2 ops).1, (run_new size h.1 h.2 ops).2.1⟩
+
+example : ∃ ops, verdicts (new 2) ops = [true, true, false, false, true, true] :=
+  ⟨[.add 5, .check 4, .add 3, .add 5, .probe 70, .add 70], by decide⟩
+
+/-- **at_most_once.** No id is delivered twice (within one filter life, i.e. between `Reset`s):
+the list of ids the filter accepted through `Add` / `IsOk;MustAdd` has no duplicates. -/
+theorem at_most_once (size : Nat) (h : SizeOk size) (ops : List Op) :
+    (deliveredFrom (new size) [] ops).Nodup := by
+  rw [(swf_refines size h ops).2]
+  exact specDelivered_nodup List.nodup_nil ops
+
+/-- **fresh_never_refused.** After any history `pre`, whatever the arrival order was, an id that is not
+yet delivered and is newer than, or fewer than `size` behind, the newest delivered id (or arrives
+when nothing was delivered yet) is accepted — by `Add`, and by `IsOk` (so `MustAdd` follows). -/
+theorem fresh_never_refused (size : Nat) (h : SizeOk size) (pre : List Op) (c : Nat)
+    (hf : Fresh size (deliveredFrom (new size) [] pre) c) :
+    (add (after (new size) pre) c).2 = true ∧ isOk (after (new size) pre) c = true := by
+  obtain ⟨_, _, hinv, hsz⟩ := run_new size h.1 h.2 pre
+  have hok : isOk (after (new size) pre) c = true := (isOk_iff hinv c).mpr (by rw [hsz]; exact hf)
+  refine ⟨?_, hok⟩
+  rw [add_eq, if_pos hok]
+
+example : Fresh 2 (deliveredFrom (new 2) [] [.add 5]) 4 := by decide
+
+/-- **refused_only_if_not_fresh.** Conversely an id that is not fresh is refused and the filter is left
+exactly as it was. -/
+theorem refused_only_if_not_fresh (size : Nat) (h : SizeOk size) (pre : List Op) (c : Nat)
+    (hf : ¬ Fresh size (deliveredFrom (new size) [] pre) c) :
+    add (after (new size) pre) c = (after (new size) pre, false) ∧ isOk (after (new size) pre) c = false := by
+  obtain ⟨_, _, hinv, hsz⟩ := run_new size h.1 h.2 pre
+  have hok : ¬ isOk (after (new size) pre) c = true :=
+    fun hok => hf (by have := (isOk_iff hinv c).mp hok; rw [hsz] at this; exact this)
+  have hok' : isOk (after (new size) pre) c = false := by
+    cases hb : isOk (after (new size) pre) c
+    · rfl
+    · exact absurd hb hok
+  refine ⟨?_, hok'⟩
+  rw [add_eq, hok']; rfl
+
+example : ¬ Fresh 2 (deliveredFrom (new 2) [] [.add 5]) 3 := by decide
+
+/-- **no_index_out_of_range / words_fit.** Along every run every ring access of `IsOk`/`MustAdd`/`Add` is
+inside the ring (the `getD` default of the model is never used, the code cannot panic there) and
+every ring word stays below `2^64` (the `Nat` words of the model are the code's `uint` words). -/
+theorem ring_access_in_range (size : Nat) (h : SizeOk size) (ops : List Op) (c : Nat) :
+    blockIndex (after (new size) ops) c < (after (new size) ops).ring.length ∧
+    (∀ i, (i + 1) &&& (after (new size) ops).mask < (after (new size) ops).ring.length) ∧
+    (∀ i, word (after (new size) ops) i < 2 ^ 64) := by
+  obtain ⟨_, _, hinv, _⟩ := run_new size h.1 h.2 ops
+  refine ⟨hinv.wf.blockIndex_lt c, ?_, hinv.words⟩
+  intro i
+  obtain ⟨k, hk, hm⟩ := hinv.wf.pow
+  rw [hm, hk]; exact clearLoop_index_lt k i
+
+/-- A counter at least `size` behind the newest accepted one is refused and leaves the filter unchanged
+(any filter, any size). -/
 theorem add_behind_refused (f : Filter) (c : Nat) (h1 : ¬ c > f.last) (h2 : f.last - c ≥ f.size) :
     add f c = (f, false) := by
   simp [add, h1, h2]
 
+example : ∃ (f : Filter) (c : Nat), ¬ c > f.last ∧ f.last - c ≥ f.size := ⟨(add (new 2) 9).1, 3, by decide⟩
+
 end SSV.C04
 
+#print axioms SSV.C04.gen_swfBlockBits
+#print axioms SSV.C04.swf_refines
+#print axioms SSV.C04.at_most_once
+#print axioms SSV.C04.fresh_never_refused
+#print axioms SSV.C04.refused_only_if_not_fresh
+#print axioms SSV.C04.ring_access_in_range
 #print axioms SSV.C04.add_behind_refused
